@@ -32,6 +32,8 @@ type AbstractTokenizer struct {
 	Scanner        io.IScanner
 	NextTokenValue *Token
 	LastTokenType  int
+	// ReaderVersion changes every time a reader is set: a tokenizer with a mode of its own starts over when it differs
+	ReaderVersion int
 }
 
 func InheritAbstractTokenizer(overrides ITokenizerOverrides) *AbstractTokenizer {
@@ -168,6 +170,7 @@ func (c *AbstractTokenizer) SetReader(value io.IScanner) {
 	c.Scanner = value
 	c.NextTokenValue = nil
 	c.LastTokenType = Unknown
+	c.ReaderVersion++
 }
 
 func (c *AbstractTokenizer) HasNextToken() bool {
